@@ -97,3 +97,39 @@ func C13_Small[T signal.SignalTypes]() {
 	}
 	vf.Cover("small")
 }
+
+// C13_History: an allocation is fresh whatever was allocated, grown or returned to a pool before.
+func C13_History[T signal.SignalTypes]() {
+	C := vf.Pick("C", 1, 3)
+	K := vf.Pick("K", 0, 2)
+	L := vf.Pick("L", 0, K)
+	switch vf.Pick("before", 0, 2) {
+	case 0: // an empty buffer of the same channel count was allocated and grown by Append
+		e := signal.Alloc[T](signal.Allocator{Channels: C})
+		e.Append(allocAny[T](C, 1, "x"))
+		vf.Cover("grown-empty")
+	case 1: // a pool of another shape with the same total capacity released a buffer
+		C2 := vf.Pick("C2", 1, 3)
+		if C2 == C || (C*K)%C2 != 0 {
+			return
+		}
+		p := signal.PoolAlloc[T](signal.Allocator{Channels: C2, Length: 0, Capacity: C * K / C2})
+		pb := p.Get()
+		pb.AppendSample(vf.Any[T]("y"))
+		p.Put(pb)
+		vf.Cover("pool-released")
+	default: // an identical allocation was made and filled
+		f := signal.Alloc[T](signal.Allocator{Channels: C, Length: K, Capacity: K})
+		for i := 0; i < f.Len(); i++ {
+			f.SetSample(i, 5)
+		}
+		vf.Cover("filled-twin")
+	}
+	b := signal.Alloc[T](signal.Allocator{Channels: C, Length: L, Capacity: K})
+	vf.Assert("channels", b.Channels() == C)
+	vf.Assert("len-cap", b.Len() == C*L && b.Cap() == C*K && b.Length() == L && b.Capacity() == K)
+	full := b.Slice(0, K)
+	for i := 0; i < full.Len(); i++ {
+		vf.Assert("zeroed", full.Sample(i) == 0)
+	}
+}
